@@ -14,7 +14,7 @@ import (
 )
 
 func init() {
-	reg(&core.RuleInfo{Name: "LOCK-GUARD", Props: []string{"C15", "C03", "C05", "C07", "C18", "C19"}, Engine: "LOCK", Floor: 20, Confirmed: 60,
+	reg(&core.RuleInfo{Name: "LOCK-GUARD", Props: []string{"C15", "C03", "C05", "C07", "C13", "C18", "C19"}, Engine: "LOCK", Floor: 20, Confirmed: 60,
 		Doc: "guarded fields are only accessed with the owner's mutex held; writes exclusively", Run: runLockGuard})
 	reg(&core.RuleInfo{Name: "LOCK-ESCAPE", Props: []string{"C15"}, Engine: "LOCK", Floor: 1, Confirmed: 8,
 		Doc: "no guarded container leaves its critical section", Run: runLockEscape})
